@@ -49,6 +49,12 @@ func pool() []vegeta.Result {
 		{Method: "POST", URL: u1, Code: 200, Latency: 0, BytesIn: 1 << 33, BytesOut: 1 << 33},
 		{Method: "POST", URL: u2, Code: 500, Latency: 2500 * time.Millisecond, BytesIn: 1, BytesOut: 0, Error: "e1"},
 		// long error texts, as transport errors that embed a long URL produce: two that share their first 150 bytes
+		// label sets whose plain concatenation is the same string ("GET"+".../i/1"+"200" == "GET"+".../i/120"+"0")
+		{Method: "GET", URL: "http://a.test/i/1", Code: 200, Latency: 3 * time.Millisecond, BytesIn: 5, BytesOut: 1},
+		{Method: "GET", URL: "http://a.test/i/120", Code: 0, Latency: 7 * time.Second, BytesIn: 0, BytesOut: 2, Error: "e2"},
+		// "has an error text" and "status outside 2xx/3xx" are independent for results observed through the public API
+		{Method: "GET", URL: u1, Code: 200, Latency: time.Millisecond, BytesIn: 3, Error: "unexpected EOF"},
+		{Method: "GET", URL: u1, Code: 404, Latency: time.Millisecond, BytesIn: 9},
 		{Method: "GET", URL: u1, Code: 0, Latency: time.Millisecond, Error: longErr + ": connection refused"},
 		{Method: "GET", URL: u1, Code: 0, Latency: time.Millisecond, Error: longErr + ": i/o timeout (Client.Timeout exceeded while awaiting headers) \u00e9\u4e16"},
 	}
@@ -352,7 +358,7 @@ func TestC20(t *testing.T) {
 	R.Assume("prometheus client_golang registry/Gather and the client_model getters are trusted; the client library is internally synchronised, so the two-goroutine runs are compared by outcome only (no schedule exploration)")
 	R.Assume("cumulative bucket membership is decided on Latency.Seconds() as a float64, the unit the metric is documented in")
 	p := pool()
-	L := ev.Pick(5, 6) // DESIGN.md asks for 0..4; one and two more are affordable
+	L := ev.Pick(4, 5) // all sequences of length 0..L over the pool
 	R.Set("max_sequence_length", L)
 	R.Set("pool_size", len(p))
 
